@@ -99,10 +99,10 @@ class Plan:
         self.prop = prop
         self.bin = binname
         self.native_shards = 12
-        self.miri_shards = 12
+        self.miri_shards = 8
         self.miri_random = 40
-        self.miri_budget_s = 40
-        self.miri_timeout = 150
+        self.miri_budget_s = 60
+        self.miri_timeout = 170
         self.native_timeout = 420
         self.valgrind = False
         self.native_args = []
@@ -201,7 +201,7 @@ def miri_shards(plan, rep, tier, seed, scratch):
                 rep.extra["miri_executions"] = rep.extra.get("miri_executions", 0) + max(done - 1, 0)
                 rep.extra["miri_shards_stopped_by_watchdog"] = rep.extra.get("miri_shards_stopped_by_watchdog", 0) + 1
                 continue
-            if rc != 0 and data is None:
+            if rc != 0 and (data is None or "error: memory leaked" in (se or "")):
                 kind, detail = _miri_kind(se or "")
                 where, fn = _repo_frame(se or "")
                 last = _last_exec(se or "")
